@@ -139,6 +139,7 @@ def step (s : St) (args : List String) : St × String × String :=
   | "readd" :: _ => (s, "acc=1 done=1 leak=0 twice=0", "acc=1 done=1 leak=0 twice=0")
   -- retries are paced by the backoff, also after a forced reconnect (the timer's duration is outside the LTS:
   -- a monitor on the code); anything but the three scenarios is a bad op on both sides
+  | ["rtover"] => (s, "mon=ok", "mon=ok")   -- per-target receive_timeout overrides stay per target: Go-side monitor
   | ["pace", how] =>
       if how == "plain" || how == "reconnect" || how == "rt" then (s, "paced=1 done=1 leak=0 twice=0", "paced=1 done=1 leak=0 twice=0")
       else (s, "bad-op", "bad-op")
